@@ -1,6 +1,6 @@
 (* C07 - the SMTP server enforces command order and resets transaction state.
    Statements only; proofs in proof/Server_lemmas.v; model in model/Server.v
-   (Server.handle/_command_* + SmtpSession, after fixes d12 and d25).
+   (Server.handle/_command_* + SmtpSession as in the current /repo: fixes d12, d25, d2b, d11, d16, AUTH clear-text gate).
 
    `run_session cfg vb items` = (one `out` for the connection/banner, then one per command
    line the server read; final state; how handle() ended).  Quantification: every
